@@ -212,10 +212,16 @@ def r3_failures_raise(run):
                   "the in-loop return derives from %s" %
                   sorted(repr(a) for a in got), fi.loc(r.ast))
     rf = m.func("entity.Entity._response")
-    src = unparse(rf.node)
-    run.check("if not has_encrypt_cert and encrypt_cert_assertion is None:\n"
-              "    encrypt_assertion = False" in src.replace("        ", "")
-              or "encrypt_cert_assertion is None" in src, "R3",
+    rcfg = cfg_of(rf, m)
+    offs = [nd for nd in rcfg.by_kind("stmt")
+            if isinstance(nd.ast, ast.Assign) and
+            isinstance(nd.ast.targets[0], ast.Name) and
+            nd.ast.targets[0].id == "encrypt_assertion" and
+            is_falsy_const(nd.ast.value)]
+    run.check(bool(offs) and all(
+        {Q("self.has_encrypt_cert_in_metadata(sp_entity_id)", False),
+         Q("encrypt_cert_assertion is None", True)} <= facts(rcfg, nd.id)
+        for nd in offs), "R3",
               rf.qual + "::no-cert=>no-encryption-flag",
               "encryption is only attempted when a certificate exists "
               "(otherwise the caller asked for the impossible; noted)",
@@ -390,8 +396,11 @@ def r6_undecryptable(run):
                       (v, sorted(gs)), fi.loc(r.ast))
     pa = m.func("response.AuthnResponse.parse_assertion")
     whiles = [w for w in walk_no_nested(pa.node) if isinstance(w, ast.While)]
-    ok = len(whiles) == 2 and all("decr_text_old != decr_text" in
-                                  unparse(w.test) for w in whiles)
+    from .. import canon
+    same = Q("decr_text_old != decr_text", True)
+    ok = len(whiles) == 2 and all(
+        same in {(canon.ctext(e), p) for e, p in canon._atoms(w.test, True)}
+        for w in whiles)
     run.check(ok, "R6", pa.qual + "::loops-terminate",
               "both decryption loops stop when a round changes nothing",
               "decryption loop guard changed", pa.loc())
